@@ -1,19 +1,34 @@
+import importlib.util, os
+_spec = importlib.util.spec_from_file_location("c18", os.path.join(os.path.dirname(os.path.abspath(__file__)), "c18.py"))
+_c18 = importlib.util.module_from_spec(_spec)
+_spec.loader.exec_module(_c18)
+def _c18_entry(short, tiers=None):
+    e = dict([x for x in _c18.CHECK["entries"] if x["fn"].endswith("." + short)][0])
+    e["opts"] = dict(_c18.CHECK["opts"], **e.get("opts", {}))
+    if tiers:
+        e["tiers"] = tiers
+    return e
 P = "github.com/tochemey/goakt/v4/internal/remoteclient."
 SUB = {"(*github.com/tochemey/goakt/v4/internal/net.Client).SendProto": P + "vC27_send"}
 CHECK = {
     "id": "C27",
-    "packages": ["./internal/remoteclient"],
-    "harness": ["internal/remoteclient/zz_verif_c27.go"],
+    "packages": ["./internal/remoteclient", "./actor"],
+    "harness": ["internal/remoteclient/zz_verif_c27.go", "actor/zz_verif_c18.go"],
+    "replace": _c18.CHECK["replace"],
     "entries": [
         {"fn": P + "vC27_order", "replay": "model-only", "cover_optional": ("dead-lettered",)},
         {"fn": P + "vC27_close", "replay": "model-only"},
         {"fn": P + "vC27_fullQueue", "replay": "model-only", "cover_optional": ("second-accepted",)},
         {"fn": P + "vC27_oneCoalescer", "replay": "model-only",
          "opts": {"substitute": dict(SUB, **{P + "newCoalescer": P + "vC27_newCoalescer", "(*" + P + "client).NetClient": P + "vC27_netClient"})}},
+        # the error handler of the coalescer on the sending node (actor/remote_server.go enqueueCoalescedFailure + drainCoalescedFailures):
+        # every message of a failed batch becomes exactly one dead letter, in order (the C18 scenario)
+        _c18_entry("vC18_batch"),
     ],
     "opts": {"rounds": 3, "unwind": 4, "unwind_mode": "assume", "feasibility": False, "substitute": SUB},
-    "stop": list(SUB.keys()) + [P + "newCoalescer", "(*" + P + "client).NetClient"],
+    "stop": _c18.CHECK["stop"] + list(SUB.keys()) + [P + "newCoalescer", "(*" + P + "client).NetClient"],
     "timeout_ms": {"quick": 600000, "thorough": 1800000},
     "explanation": "coalescer.submit/run (flush, drainReady)/close under solver-chosen interleavings of a caller, the writer goroutine and a closer; the transport (net.Client.SendProto) is substituted by a recorder that delivers or fails whole batches; errHandler records dead letters.",
     "bounds": {"threads": "caller (2 messages), writer, closer", "rounds": 3, "maxBatch": "2 and 1"},
 }
+CHECK["explanation"] += " Error handler on the sending node: actorSystem.enqueueCoalescedFailure + drainCoalescedFailures are executed through the C18 scenario vC18_batch (a failed batch of n = 0..3 remote tells yields n dead letters, in order, with the original message/receiver/sender and the cause)."
